@@ -591,4 +591,70 @@ theorem pathSegment_clean (v : Variant) (bs : Bytes) (hb : IsBytes bs) (hne : bs
       · simpa [quotePlus_chunks] using key true
       · simpa [quoteStrict_chunks] using key false
 
+/-! ### template → URL → segments -/
+
+theorem segments_eq_splitSlash (s : Bytes) : segments s = splitSlash s := by
+  induction s with
+  | nil => rfl
+  | cons c cs ih =>
+    by_cases h : c = 47
+    · simp [segments, splitSlash, h, ih]
+    · simp only [segments, splitSlash, h, if_false, ih, beq_iff_eq]
+      cases splitSlash cs <;> rfl
+
+theorem alwaysSafe_props (s : Bytes) (h : s.all isAlwaysSafe = true) : 47 ∉ s ∧ 37 ∉ s ∧ IsBytes s := by
+  refine ⟨?_, ?_, ?_⟩
+  · intro hm; have := List.all_eq_true.mp h 47 hm; simp [isAlwaysSafe] at this
+  · intro hm; have := List.all_eq_true.mp h 37 hm; simp [isAlwaysSafe] at this
+  · intro b hb
+    have := List.all_eq_true.mp h b hb
+    simp only [isAlwaysSafe, Bool.or_eq_true, Bool.and_eq_true, decide_eq_true_eq, beq_iff_eq] at this
+    omega
+
+theorem pctDecode_noPct (s : Bytes) (h : 37 ∉ s) : pctDecode s = some s := by
+  induction s with
+  | nil => rfl
+  | cons c t ih =>
+    simp only [List.mem_cons, not_or] at h
+    rw [pctDecode_plain c (fun e => h.1 e.symm), ih h.2]
+    rfl
+
+theorem decodeSegment_lit (s : Bytes) (h : s.all isAlwaysSafe = true) : decodeSegment s = some s := by
+  have hseg : isSegment s = true := by
+    apply List.all_eq_true.mpr
+    intro b hb
+    have := List.all_eq_true.mp h b hb
+    simp [isPchar, this]
+  simp only [decodeSegment, hseg, if_true]
+  exact pctDecode_noPct s (alwaysSafe_props s h).2.1
+
+theorem instSeg_ok (v : Variant) (t : TSeg) (h : SegOk t) :
+    47 ∉ instSeg v t ∧ instSeg v t ≠ [46] ∧ instSeg v t ≠ [46, 46] ∧ IsBytes (instSeg v t) := by
+  cases t with
+  | lit s =>
+    have := alwaysSafe_props s h.1
+    exact ⟨this.1, h.2.1, h.2.2, this.2.2⟩
+  | val bs =>
+    have := pathSegment_clean v bs h.1 h.2
+    exact ⟨this.1, this.2.1, this.2.2.1, this.2.2.2.1⟩
+
+theorem instSeg_ne_nil (v : Variant) (t : TSeg) (h : SegOk t) (hn : t ≠ .lit []) : instSeg v t ≠ [] := by
+  cases t with
+  | lit s => intro e; simp only [instSeg] at e; exact hn (by rw [e])
+  | val bs => exact (pathSegment_clean v bs h.1 h.2).2.2.2.2
+
+theorem pathOk_of_template (v : Variant) (ts : List TSeg) (h : TemplateOk ts) : PathOk (ts.map (instSeg v)) := by
+  obtain ⟨hne, hall, hmid⟩ := h
+  refine ⟨by simpa using hne, ?_, ?_⟩
+  · intro s hs
+    obtain ⟨t, ht, rfl⟩ := List.mem_map.mp hs
+    exact instSeg_ok v t (hall t ht)
+  · intro s hs
+    rw [dropLast_map] at hs
+    obtain ⟨t, ht, rfl⟩ := List.mem_map.mp hs
+    have hmem : t ∈ ts := by
+      have := dropLast_append_lastD (TSeg.lit []) ts hne
+      rw [← this]; exact List.mem_append_left _ ht
+    exact instSeg_ne_nil v t (hall t hmem) (hmid t ht)
+
 end SV.Proofs.C06
